@@ -154,9 +154,22 @@ def simple_locks(rng, desc):
     return desc
 
 
+def dup_noise(rng, d):
+    """legal redundancy: a capability listed twice in a unit, a connection listed twice (any letter case)"""
+    if d["units"] and rng.random() < 0.2:
+        u = rng.choice(d["units"])
+        if u["capabilities"]:
+            u["capabilities"].insert(rng.randrange(len(u["capabilities"]) + 1),
+                                     recase(rng, rng.choice(u["capabilities"]), 0.5))
+    if d["dataPath"] and rng.random() < 0.2:
+        e = rng.choice(d["dataPath"])
+        d["dataPath"].insert(rng.randrange(len(d["dataPath"]) + 1), [recase(rng, x, 0.5) for x in e])
+    return d
+
+
 def valid_desc(rng, nmax=6, **kw):
     """a description that the loader accepts with good probability"""
-    d = rand_desc(rng, nmax, **kw)
+    d = dup_noise(rng, rand_desc(rng, nmax, **kw))
     r = rng.random()
     if r < 0.6:
         d = smart_locks(rng, d)
